@@ -41,20 +41,22 @@ func (m *collection) statsSegmentsLOCKED(rv *CollectionStats) {
 	var sssDirtyBase *SegmentStackStats
 	var sssClean *SegmentStackStats
 
+	// The gauges cover the segments of child collections too, so that
+	// a batch that only touches child collections counts as dirty.
 	if m.stackDirtyTop != nil {
-		sssDirtyTop = m.stackDirtyTop.Stats()
+		sssDirtyTop = m.stackDirtyTop.statsWithChildren()
 	}
 
 	if m.stackDirtyMid != nil {
-		sssDirtyMid = m.stackDirtyMid.Stats()
+		sssDirtyMid = m.stackDirtyMid.statsWithChildren()
 	}
 
 	if m.stackDirtyBase != nil {
-		sssDirtyBase = m.stackDirtyBase.Stats()
+		sssDirtyBase = m.stackDirtyBase.statsWithChildren()
 	}
 
 	if m.stackClean != nil {
-		sssClean = m.stackClean.Stats()
+		sssClean = m.stackClean.statsWithChildren()
 	}
 
 	sssDirty := &SegmentStackStats{}
